@@ -194,6 +194,23 @@ theorem bs_cond (T : List Entry) (g b t p : Nat) (hp : p < T.length) :
   simp only [decide_eq_true_eq]
   omega
 
+theorem fdiv2 (a : Int) : Int.fdiv a 2 = a / 2 := Int.fdiv_eq_ediv_of_nonneg a (by decide)
+
+/-- reading an entry at any in-range Python index expression -/
+theorem pyGet_kmInt' (T : List Entry) (z : Int) (h0 : 0 ≤ z) (h1 : z.toNat < T.length) :
+    PyFun.pyGet (T.map kmInt) z = .ok (kmInt (T[z.toNat]'h1)) := by
+  have := pyGet_kmInt T z.toNat h1
+  rwa [Int.toNat_of_nonneg h0] at this
+
+/-- closes `generated next state = bsState ...`: the position by arithmetic, the entry read by the position -/
+macro "bs_next" : tactic => `(tactic|
+  (simp only [fdiv2]
+   rw [pyGet_kmInt' _ _ (by omega) (by omega)]
+   simp only [gg_kmInt, bsState, Prod.mk.injEq, true_and]
+   refine ⟨by omega, ?_⟩
+   congr 3
+   omega))
+
 /-- one round of the binary search: the generated body does what the model's `bsLoop` does -/
 theorem bs_body (T : List Entry) (g b t p : Nat) (hp : p < T.length) (ht : t ≤ T.length)
     (hc : T[p].gen + 1 ≠ g ∧ b < p ∧ p < t) :
@@ -201,21 +218,16 @@ theorem bs_body (T : List Entry) (g b t p : Nat) (hp : p < T.length) (ht : t ≤
       = if T[p].gen + 1 < g
         then bsState T p t (p + (t - p) / 2) (by omega)
         else bsState T b p (b + (p - b) / 2) (by omega) := by
-  unfold PyFun.get_insertion_index_loop1 bsState
+  unfold PyFun.get_insertion_index_loop1
+  rw [bsState]
   dsimp only
   by_cases hlt : T[p].gen + 1 < g
   · have h1 : ((T[p].gen : Nat) : Int) < (g : Int) - 1 := by omega
-    have e : (p : Int) + Int.fdiv ((t : Int) - (p : Int)) 2 = ((p + (t - p) / 2 : Nat) : Int) := by
-      rw [Int.fdiv_eq_ediv_of_nonneg _ (by decide)]; omega
-    simp only [h1, hlt, if_true, e]
-    rw [pyGet_kmInt T _ (by omega)]
-    simp only [gg_kmInt]
+    simp only [h1, hlt, if_true]
+    bs_next
   · have h1 : ¬ (((T[p].gen : Nat) : Int) < (g : Int) - 1) := by omega
-    have e : (b : Int) + Int.fdiv ((p : Int) - (b : Int)) 2 = ((b + (p - b) / 2 : Nat) : Int) := by
-      rw [Int.fdiv_eq_ediv_of_nonneg _ (by decide)]; omega
-    simp only [h1, hlt, if_false, e]
-    rw [pyGet_kmInt T _ (by omega)]
-    simp only [gg_kmInt]
+    simp only [h1, hlt, if_false]
+    bs_next
 
 /-- the binary search: with fuel `≥ top - bottom` the generated loop ends in the state whose position is the
 model's `bsLoop` (for every model fuel `≥ top - bottom` as well) -/
